@@ -511,10 +511,11 @@ class IdentityMatrix(PositiveDefiniteMatrix, ImplicitArrayMatrix):
         return ScaledIdentityMatrix(scalar, self.shape[0])
 
     def _left_matrix_multiply(self, other: NDArray) -> NDArray:
-        return other
+        # Return copy so result never shares memory with operand
+        return np.array(other)
 
     def _right_matrix_multiply(self, other: NDArray) -> NDArray:
-        return other
+        return np.array(other)
 
     @property
     def eigval(self) -> NDArray:
